@@ -481,7 +481,8 @@ class RealizeMemrefCasts(RewritePattern):
 
         if source_type == dest_type:
             # canonicalize away unnecessary cast
-            op.dest.replace_all_uses_with(op.source)
+            # (by the source of the chain if the value in between has another type)
+            op.dest.replace_all_uses_with(op.source if op.source.type == dest_type else source_op.source)
             rewriter.erase_op(op)
             return
 
